@@ -31,16 +31,21 @@ RULE = ('histories of 5..12 (quick) / 5..30 (thorough) operations drawn from cro
 TRUSTED = ['scipy.interpolate.interp1d(kind="linear", bounds_error=False, fill_value=…) is the piecewise-linear interpolant with fill',
            'np.linspace(a,b,n)[i] = a + i(b-a)/(n-1); np.delete/np.where/np.append/np.hstack semantics; np.trapz',
            'scipy.integrate.simpson (used by integrate(method="simps") and by preserve_power with simps) is taken from the implementation']
-UNPROVEN = ['Simpson bins: positivity of the weights and exactness for linear spectra on uniform centres (oracle only)',
+UNPROVEN = ['Simpson binning with integer-dtype centres (open known finding KF-C15-bin-integer-centres: mid-points truncated)',
+            'Simpson bins: positivity of the weights and exactness for linear spectra on uniform centres (oracle only)',
             'trapezoid bins are exact for spectra linear across each bin (oracle only; the theorem proved is exactness of the trapezoid '
             'integral on linear data)',
             'integrate(method="simps") (scipy.integrate.simpson is not modelled)',
             'non-negativity of Simpson bins under preserve_power (scipy.integrate.simpson can be negative on non-uniform data)']
-ASSUMPTIONS = ['bin(interp_method="simps", preserve_power=True) raises ValueError (from scipy.integrate.simpson) when no data sample lies inside the span of the centres; such calls are outside the modelled scope',
+ASSUMPTIONS = ['preserve_power divides by the sum of the un-normalised bins: when that sum is zero (e.g. all centres outside the data with fill 0) the code returns nan/inf; such calls are counted (tag bin:non-finite) and only checked for agreement with the model\'s zero raw sum',
+               'bin(interp_method="simps", preserve_power=True) raises ValueError (from scipy.integrate.simpson) when no data sample lies inside the span of the centres; such calls are outside the modelled scope',
                'spectra are 1-D with finite float64 data; operations are applied in the spectrum\'s own wavelength unit',
                'histories continue after a refusal with the object as the refused call left it']
 
 OPK = ['crop', 'trim', 'pad', 'append', 'resample']
+UNITS = ['m', 'um', 'nm', 'angstrom']
+MPU = {'m': Fraction(1), 'um': Fraction(1, 10**6), 'nm': Fraction(1, 10**9), 'angstrom': Fraction(1, 10**10)}
+NOTES = {}     # id(case) -> tags discovered while running the implementation
 
 def _spec(rng, n=None, tiny_ends=False):
     n = int(rng.integers(2, 11)) if n is None else n
@@ -108,6 +113,21 @@ def generate(rng, tier):
                         'jit': [int(x) / 8 for x in rng.integers(0, 7, 8)],
                         'simps': bool(rng.integers(0, 2)), 'ends': ['symmetric', 'inside'][int(rng.integers(0, 2))], 'pp': bool(rng.integers(0, 2)),
                         'fill': [0.0, 0.0, 1.5, [0.5, 2.0]][int(rng.integers(0, 4))], 'unit': ['nm', 'nm', 'um', 'angstrom', 'm'][int(rng.integers(0, 5))]})
+            c = out[-1]
+            # requested unit of the centres: the spectrum's own, another one (bin converts a copy), or none given (default 'nm')
+            r = int(rng.integers(0, 6))
+            c['req'] = c['unit'] if r < 3 else UNITS[int(rng.integers(0, 4))] if r < 5 else 'nm'
+            c['omit_unit'] = (r == 5)
+            # integer-dtype centre array (only meaningful where the data scale is 1)
+            c['cen_int'] = bool(c['unit'] == 'nm' and c['req'] == 'nm' and rng.integers(0, 3) == 0)
+    # unit-conversion paths of sample/resample: spectrum in unit U, abscissae in unit R (explicit, or the default 'nm')
+    for i in range(max(n // 10, 12)):
+        w, v = _spec(rng, n=int(rng.integers(2, 9)))
+        u = UNITS[int(rng.integers(0, 4))]
+        r = int(rng.integers(0, 3))
+        out.append({'kind': 'unit', 'wave': w, 'value': v, 'unit': u, 'req': 'nm' if r == 2 else UNITS[int(rng.integers(0, 4))], 'omit_unit': r == 2,
+                    'fr': [FR[int(x)] for x in sorted(rng.choice(len(FR), int(rng.integers(1, 6)), replace=False))],
+                    'fill': [0.0, 1.5, [0.5, 2.0]][int(rng.integers(0, 3))], 'vu': [None, 'wlam'][int(rng.integers(0, 2))]})
     # storage dtype: integer-valued spectra (0/1 bandpasses, counts) stored as int64
     for c in out:
         if c.get('linear') is None and '_corpus' not in c and rng.integers(0, 5) == 0:
@@ -121,8 +141,9 @@ def _vals(c):
 
 def signature(c):
     if c['kind'] == 'history': return 'history n=%d %s %s' % (len(c['wave']), ','.join(o['k'] for o in c['ops']), c['wave'][:2])
+    if c['kind'] == 'unit': return 'unit %s>%s%s n=%d %s %s' % (c['unit'], c['req'], '*' if c['omit_unit'] else '', len(c['wave']), c['fr'], c['wave'][:2])
     if c['kind'] == 'integrate': return 'integrate n=%d %s %s %s' % (len(c['wave']), c['a'], c['b'], c['wave'][:2])
-    return 'bin n=%d m=%d %s %s %s %s %s' % (len(c['wave']), c['m'], c['simps'], c['ends'], c['pp'], c['unit'], c['wave'][:2])
+    return 'bin n=%d m=%d %s %s %s %s>%s%s %s' % (len(c['wave']), c['m'], c['simps'], c['ends'], c['pp'], c['unit'], c.get('req', c['unit']), 'i' if c.get('cen_int') else '', c['wave'][:2])
 
 def nontrivial(c):
     if c['kind'] == 'history': return len({o['k'] for o in c['ops']}) >= 2
@@ -131,7 +152,11 @@ def nontrivial(c):
 def tags(c):
     t = [c['kind'], 'dtype:' + c.get('dtype', 'float')]
     if c['kind'] == 'history': t += sorted({'op:' + o['k'] for o in c['ops']})
-    if c['kind'] == 'bin': t += ['bin:' + ('simps' if c['simps'] else 'trapz'), 'bin:' + c['ends'], 'bin:unit=' + c['unit']]
+    if c['kind'] == 'bin':
+        t += ['bin:' + ('simps' if c['simps'] else 'trapz'), 'bin:' + c['ends'], 'bin:unit=' + c['unit'], 'bin:pp=%s' % c['pp'],
+              'bin:requested=' + ('default' if c.get('omit_unit') else 'own' if c.get('req', c['unit']) == c['unit'] else 'other')]
+        if c.get('cen_int'): t.append('bin:integer-centres')
+    t += NOTES.pop(id(c), [])
     return t
 
 # ------------------------------------------------------------------------------------------ implementation
@@ -215,6 +240,27 @@ def impl(c):
                     st['returned'] = _state(ret)
                 steps.append(st)
             return {'steps': steps}
+        if k == 'unit':
+            w, v = np.array(c['wave']), _vals(c)
+            scale = 2.0 ** -10 if c['unit'] != 'nm' else 1.0
+            f = float(MPU[c['unit']] / MPU[c['req']])
+            kden = f if c['vu'] else 1.0
+            s = R.Spectrum(w * scale, v, waveunit=c['unit'], valueunit=c['vu'])
+            wave_req = (s.wave * f) if c['req'] != c['unit'] else s.wave
+            val_req = (s.value / kden) if (c['req'] != c['unit'] and c['vu']) else np.asarray(s.value, dtype=float)
+            lo, hi = float(wave_req[0]), float(wave_req[-1])
+            xs = [lo + a * (hi - lo) for a in c['fr']]
+            kw = {} if c['omit_unit'] else {'waveunit': c['req']}
+            before = _state(s)
+            sam = s.sample(np.array(xs), fill_value=_pyfill(c['fill']), **kw)
+            out = {'xs': xs, 'wave_req': [float(x) for x in wave_req], 'val_req': [float(x) for x in val_req], 'sample': [float(x) for x in sam],
+                   'sample_unchanged': _state(s) == before and s.waveunit == c['unit']}
+            try:
+                s.resample(np.array(xs), fill_value=_pyfill(c['fill']), **kw); out['exc'] = None
+            except ValueError as e:
+                out['exc'] = 'ValueError'
+            out['after'] = _state(s); out['unit_after'] = s.waveunit; out['vunit_after'] = s.valueunit
+            return out
         if k == 'integrate':
             w, v, v2 = np.array(c['wave']), _vals(c), np.array(c['value2'])
             s = R.Spectrum(w, v)
@@ -240,18 +286,43 @@ def impl(c):
             # dyadic centres (multiples of 2^-6 in the data's own scale): edges and midpoints are then exact in float64, so the
             # implementation and the exact model take the same in-range/out-of-range decisions at the ends of the data
             cen = sorted({round(x * 64) / 64 for x in cen})
-            cen = [x * scale for x in cen]
+            if c.get('cen_int'): cen = sorted({float(round(x)) for x in cen})
+            req = c.get('req', c['unit'])
+            f = float(MPU[c['unit']] / MPU[req])                      # spectrum unit -> requested unit
+            cen = [(x * scale) * f if req != c['unit'] else x * scale for x in cen]
             if 'centres_abs' in c: cen = list(c['centres_abs'])
             method = 'simps' if c['simps'] else 'trapz'
-            out = {'centres': cen, 'wave': [float(x) for x in s.wave]}
+            wave_req = s.wave * f if req != c['unit'] else s.wave
+            if req != c['unit'] and len(cen) >= 2:
+                # converted wavelengths are not dyadic: keep every sample point of the bins away from the two ends of the data, where
+                # float64 and exact arithmetic could take different in-range/out-of-range decisions on a 1-ulp difference
+                lo_, hi_ = float(wave_req[0]), float(wave_req[-1])
+                for _ in range(4):
+                    mids = [(x + y) / 2 for x, y in zip(cen, cen[1:])]
+                    pts = cen + mids + [cen[0] - (cen[1] - cen[0]) / 2, cen[-1] + (cen[-1] - cen[-2]) / 2, (cen[0] + mids[0]) / 2, (cen[-1] + mids[-1]) / 2]
+                    if not any(abs(x - e) < 1e-9 * (hi_ - lo_) for x in pts for e in (lo_, hi_)): break
+                    cen = [x + (hi_ - lo_) * 2.0 ** -12 for x in cen]
+            out = {'centres': cen, 'wave': [float(x) for x in wave_req]}
+            before = _state(s)
+            carr = np.array(cen).astype(np.int64) if c.get('cen_int') else np.array(cen)
+            kw = {} if c.get('omit_unit') else {'waveunit': req}
             try:
-                bins = s.bin(np.array(cen), interp_method=method, ends=c['ends'], preserve_power=c['pp'], fill_value=_pyfill(c['fill']), waveunit=c['unit'])
+                bins = s.bin(carr, interp_method=method, ends=c['ends'], preserve_power=c['pp'], fill_value=_pyfill(c['fill']), **kw)
                 out['bins'] = [float(x) for x in bins]
             except (ValueError, IndexError) as e:
                 out['exc'] = type(e).__name__
             if len(cen) >= 2:
-                try: out['norm'] = float(s.integrate(min(cen), max(cen), method=method))
-                except ValueError: pass
+                # the integral over the span of the centres in the requested unit, on an independently converted spectrum
+                sel = [(x, y) for x, y in zip(wave_req, np.asarray(v, dtype=float)) if min(cen) <= x <= max(cen)]
+                xs_, ys_ = np.array([p_[0] for p_ in sel]), np.array([p_[1] for p_ in sel])
+                if c['simps']:
+                    import scipy.integrate
+                    try: out['norm'] = float(scipy.integrate.simpson(x=xs_, y=ys_))
+                    except ValueError: pass
+                else:
+                    out['norm'] = float(np.trapz(ys_, xs_))
+            out['caller_unchanged'] = (_state(s) == before)
+            if 'bins' in out and not all(np.isfinite(x) for x in out['bins']): NOTES[id(c)] = ['bin:non-finite (0/0 normalisation)']
             out['after'] = _state(s); out['unit_after'] = s.waveunit
             return out
 
@@ -282,6 +353,9 @@ def requests(c, io):
             if st.get('skipped'): continue
             out.append({'op': 'c15.step', 'wave': qs(st['before']['wave']), 'value': qs(st['before']['value']), 'opd': _op_req(st['p'])})
         return out
+    if k == 'unit':
+        fl, fr = _fill(c['fill'])
+        return [{'op': 'c15.step', 'wave': qs(io['wave_req']), 'value': qs(io['val_req']), 'opd': {'k': 'resample', 'xs': qs(io['xs']), 'fillL': q(fl), 'fillR': q(fr)}}]
     if k == 'integrate':
         base = {'op': 'c15.integrate', 'wave': qs(c['wave']), 'a': q(io['a']), 'b': q(io['b'])}
         return [dict(base, value=qs(c['value'])), dict(base, value=qs(c['value2']))]
@@ -289,10 +363,11 @@ def requests(c, io):
         fl, fr = _fill(c['fill'])
         pp = 'none' if not c['pp'] else ('given' if c['simps'] else 'model')
         r = {'op': 'c15.bin', 'wave': qs(io['wave']), 'value': qs(c['value']), 'centres': qs(io['centres']), 'simps': c['simps'], 'symmetric': c['ends'] == 'symmetric',
-             'fillL': q(fl), 'fillR': q(fr), 'pp': pp}
+             'fillL': q(fl), 'fillR': q(fr), 'pp': pp, 'intC': False}
         if pp == 'given':
             nv = io.get('norm', 0.0)
             r['norm'] = q(nv if np.isfinite(nv) else 0.0)
+        if c.get('cen_int'): return [dict(r, intC=True), r]      # as the code does it today (truncating) / as float centres would give
         return [r]
     return []
 
@@ -322,19 +397,37 @@ def compare(c, io, mo):
             if not all_close(mw, st['after']['wave'], rel): return f"{what} {st['p']}: wave impl {st['after']['wave']} model {mw}"
             if not all_close(mv, st['after']['value'], rel, atol): return f"{what} {st['p']}: value impl {st['after']['value']} model {mv}"
         return None
+    if k == 'unit':
+        m = mo[0]
+        if not m.get('ok'): return f'model: {m}'
+        atol = 1e-11 * (1.0 + max(abs(x) for x in io['val_req']))
+        if m['exc'] is None and not all_close(_fl(m['value']), io['sample'], 1e-11, atol): return f"sample in {c['req']}: impl {io['sample']} model {_fl(m['value'])}"
+        if m['exc'] != io['exc']: return f"resample in {c['req']}: impl exc {io['exc']} model {m['exc']}"
+        if m['exc'] is None and (not all_close(_fl(m['wave']), io['after']['wave'], 0.0) or not all_close(_fl(m['value']), io['after']['value'], 1e-11, atol)):
+            return f"resample in {c['req']}: impl {io['after']} model {_fl(m['wave'])} {_fl(m['value'])}"
+        return None
     if k == 'integrate':
         for key, m in zip(('I', 'I2'), mo):
             if not close(float(unq(m['q'])), io[key], 1e-13): return f"integrate({io['a']},{io['b']}): impl {io[key]!r} model {float(unq(m['q']))!r}"
         return None
     if k == 'bin':
         if not mo: return None
-        m = mo[0]
-        if 'exc' in io and _simps_pp_empty(c, io): return None
-        if 'exc' in io: return None if (not m.get('ok') and m.get('err') == io['exc']) else f"bin: impl raised {io['exc']}, model {m}"
-        if not m.get('ok'): return f"bin: model refused ({m.get('err')}), impl answered"
-        mb = _fl(m['v'])
-        if any(not np.isfinite(x) for x in io['bins']): return None      # 0/0 normalisation: outside the model (ℚ has no nan)
-        if not all_close(mb, io['bins'], 1e-10, 1e-13): return f"bins: impl {io['bins']} model {mb}"
+        errs = [_cmp_bin(c, io, m) for m in mo]
+        # integer centres: the model of today's truncating code must agree, or (should the truncation be fixed upstream) the
+        # float-centre model — either way the implementation is explained by the model
+        return None if any(e is None for e in errs) else errs[0]
+    return None
+
+def _cmp_bin(c, io, m):
+    if 'exc' in io and _simps_pp_empty(c, io): return None
+    if 'exc' in io: return None if (not m.get('ok') and m.get('err') == io['exc']) else f"bin: impl raised {io['exc']}, model {str(m)[:120]}"
+    if not m.get('ok'): return f"bin: model refused ({m.get('err')}), impl answered"
+    mb = _fl(m['v'])
+    if any(not np.isfinite(x) for x in io['bins']):
+        # preserve_power divides by the sum of the un-normalised bins: non-finite exactly when the model's raw sum is zero
+        return None if (c['pp'] and unq(m['rawsum']) == 0) else f"bins are not finite ({io['bins']}) but the model's un-normalised bins sum to {float(unq(m['rawsum']))}"
+    if c['pp'] and unq(m['rawsum']) == 0: return f"bins {io['bins']} although the un-normalised bins sum to zero"
+    if not all_close(mb, io['bins'], 1e-10, 1e-13): return f"bins: impl {io['bins']} model {mb}"
     return None
 
 # ------------------------------------------------------------------------------------------ oracle
@@ -401,6 +494,20 @@ def oracle(c, io):
                     if not all_close(a['value'], list(ref), 1e-11, 1e-300): return f"{what}: values {a['value']} are not the linear interpolant {list(ref)}"
                 elif pa != pb: return f'{what}: refused ({st["exc"]}) but changed the spectrum (wave {a["shapes"][0]}, value {a["shapes"][1]})'
         return None
+    if k == 'unit':
+        what = f"spectrum in {c['unit']} ({c['vu']}), abscissae in {'<default nm>' if c['omit_unit'] else c['req']}"
+        if not io['sample_unchanged']: return f'sample changed the spectrum ({what})'
+        fl, fr = _fill(c['fill'])
+        ref = list(np.interp(np.array(io['xs']), np.array(io['wave_req']), np.array(io['val_req']), left=fl, right=fr))
+        atol = 1e-11 * (1.0 + max(abs(x) for x in io['val_req']))
+        if not all_close(io['sample'], ref, 1e-11, atol): return f"sample: {io['sample']} is not the interpolant of the same physical spectrum {ref} ({what})"
+        bad = _wf(io['after'])
+        if bad: return f'resample: {bad} ({what})'
+        if io['exc'] is None:
+            if io['unit_after'] != c['req'] or io['after']['wave'] != io['xs']: return f"resample: grid/unit afterwards {io['unit_after']} {io['after']['wave']} ({what})"
+            if not all_close(io['after']['value'], ref, 1e-11, atol): return f"resample: values {io['after']['value']} are not the interpolant {ref} ({what})"
+        elif io['unit_after'] != c['unit']: return f'resample refused but changed the unit ({what})'
+        return None
     if k == 'integrate':
         w, v = c['wave'], c['value']
         if not close(io['Icomb'], c['ca'] * io['I'] + c['cb'] * io['I2'], 1e-12, 1e-9): return f"integration not linear: ∫(a f + b g) = {io['Icomb']!r}, a∫f + b∫g = {c['ca'] * io['I'] + c['cb'] * io['I2']!r}"
@@ -419,28 +526,34 @@ def oracle(c, io):
         if len(cen) < 2:
             return None if io.get('exc') == 'ValueError' else f"bin with {len(cen)} centre(s) did not raise ValueError"
         if 'exc' in io and _simps_pp_empty(c, io): return None      # scope: scipy.integrate.simpson refuses an empty sample set
-        if 'exc' in io: return f"bin raised {io['exc']}"
-        tag = f"bin({'simps' if c['simps'] else 'trapz'},{c['ends']},pp={c['pp']},unit={c['unit']})"
-        if io['unit_after'] != c['unit'] or _wf(io['after']): return f'{tag}: spectrum not well-formed afterwards'
+        req = c.get('req', c['unit'])
+        tag = (f"bin({'simps' if c['simps'] else 'trapz'},{c['ends']},pp={c['pp']},unit={c['unit']},waveunit={'<default>' if c.get('omit_unit') else req}"
+               + (',integer-dtype centres' if c.get('cen_int') else '') + ')')
+        if 'exc' in io: return f"{tag} raised {io['exc']}"
+        if not io['caller_unchanged']: return f'{tag}: the caller\'s spectrum was changed'
         bins = io['bins']
         if len(bins) != len(cen): return f'{tag}: {len(bins)} bins for {len(cen)} centres'
         fl, fr = _fill(c['fill'])
         uniform = all(close(cen[i + 1] - cen[i], cen[1] - cen[0], 1e-12) for i in range(len(cen) - 1))
         finite = all(np.isfinite(x) for x in bins)
-        if min(c['value']) >= 0 and fl >= 0 and fr >= 0 and finite and not (c['simps'] and c['pp']):
+        if not finite:
+            # 0/0 (or x/0) of the preserve_power normalisation when the un-normalised bins sum to zero: ASSUMPTIONS
+            return None if c['pp'] else f'{tag}: bins are not finite: {bins}'
+        if min(c['value']) >= 0 and fl >= 0 and fr >= 0 and not (c['simps'] and c['pp']):
             if min(bins) < -1e-12 * (1 + max(abs(x) for x in bins)): return f'{tag}: negative bin {min(bins)!r} for a non-negative spectrum'
         if c['linear'] and not c['pp'] and (uniform or not c['simps']):
             a_, b_ = c['linear']
-            sc = 1.0 if (c['unit'] == 'nm' or 'centres_abs' in c) else 2.0 ** -10
-            # edges of the bins, independently
+            # value = a_*w + b_ with w the wavelength in the generator's scale; wavelength in the requested unit = w * sc
+            sc = io['wave'][-1] / c['wave'][-1]
             mids = [(x + y) / 2 for x, y in zip(cen, cen[1:])]
             e = ([cen[0] - (cen[1] - cen[0]) / 2] if c['ends'] == 'symmetric' else [cen[0]]) + mids + ([cen[-1] + (cen[-1] - cen[-2]) / 2] if c['ends'] == 'symmetric' else [cen[-1]])
             wlo, whi = io['wave'][0], io['wave'][-1]
             if e[0] >= wlo and e[-1] <= whi:
                 ref = [(a_ / sc) * (y * y - x * x) / 2 + b_ * (y - x) for x, y in zip(e, e[1:])]
-                if not all_close(bins, ref, 1e-10, 1e-12): return f'{tag}: spectrum linear across every bin, bins {bins} but exact integrals {ref}'
-        if c['pp'] and finite and 'norm' in io and np.isfinite(io['norm']):
-            if not close(sum(bins), io['norm'], 1e-10, 1e-12): return f"{tag}: bins sum to {sum(bins)!r}, integral over the centres' span is {io['norm']!r}"
+                if not all_close(bins, ref, 1e-10, 1e-12 * (1 + abs(ref[0]))): return f'{tag}: spectrum linear across every bin, bins {bins} but exact integrals {ref}'
+        if c['pp'] and 'norm' in io and np.isfinite(io['norm']):
+            if not close(sum(bins), io['norm'], 1e-10, 1e-12 * (1 + abs(io['norm']))):
+                return f"{tag}: bins sum to {sum(bins)!r}, the integral over the centres' span (in {req}) is {io['norm']!r}"
         return None
 
 def shrink(c):
@@ -448,3 +561,16 @@ def shrink(c):
         ops = c['ops']
         for i in range(len(ops)):
             yield dict(c, ops=ops[:i] + ops[i + 1:])
+
+# ------------------------------------------------------------------------------------------ known findings
+def matches_finding(kf, case, msg):
+    m = kf.get('match', {})
+    return (case.get('kind') == 'bin' and bool(case.get('cen_int')) and bool(case.get('simps')) and 'integer-dtype centres' in msg
+            and m.get('interp_method') == 'simps')
+
+def replay_finding(kf):
+    R = _R()
+    w = np.arange(500., 521.)
+    s = R.Spectrum(w, 2 * w + 1)
+    b = s.bin(np.array([503, 506, 509, 512]), preserve_power=False)
+    return not np.allclose(b, [3021, 3039, 3057, 3075])
